@@ -779,6 +779,285 @@ class TranscriptPointerCache(_PointerCache):
 
 
 # ----------------------------------------------------------------------------
+# byte-offset index of a GTF file
+# ----------------------------------------------------------------------------
+class Key:
+    """an id string known through an integer code (equal strings <=> equal codes)"""
+    def __init__(self, code):
+        self.code = code
+
+    def sym_eq(self, I, other):
+        if other is None:
+            return False
+        if isinstance(other, Key):
+            return self.code == other.code
+        raise Unsupported('id compared with a foreign value')
+
+    def sym_truth(self, I):
+        return True
+
+
+class LinesModel:
+    """a binary file iterated line by line: line k has blen(k) > 0 bytes and clen(k) <= blen(k) characters"""
+    def __init__(self, e):
+        self.N = e.int('n_lines')
+        self.blen = z3.Function('byte_len', I_, I_)
+        self.clen = z3.Function('char_len', I_, I_)
+        self.comment = z3.Function('is_comment', I_, B_)
+        self.gene = z3.Function('is_gene_line', I_, B_)
+        self.gid = z3.Function('gene_id_of_line', I_, I_)
+        self.tid = z3.Function('transcript_id_of_line', I_, I_)
+        self.off = z3.Function('byte_offset', I_, I_)
+        j = z3.Int('j_ln')
+        self.axioms = [self.N >= 0, self.off(0) == 0,
+                       z3.ForAll([j], z3.Implies(j >= 0, z3.And(self.blen(j) > 0, self.clen(j) > 0, self.clen(j) <= self.blen(j))),
+                                 patterns=[self.blen(j)]),
+                       z3.ForAll([j], z3.Implies(j >= 0, self.off(j + 1) == self.off(j) + self.blen(j)), patterns=[self.off(j + 1)]),
+                       z3.ForAll([j], z3.Implies(j >= 0, self.off(j + 1) == self.off(j) + self.blen(j)),
+                                 patterns=[z3.MultiPattern(self.off(j), self.blen(j))])]
+        a, b = z3.Ints('a_off b_off')
+        # lemma byte_offsets_monotone (proved separately by induction)
+        self.axioms.append(z3.ForAll([a, b], z3.Implies(z3.And(0 <= a, a < b), self.off(a) < self.off(b)),
+                                     patterns=[z3.MultiPattern(self.off(a), self.off(b))]))
+
+
+@register
+class ByteOffsetsMonotone(Lemma):
+    """off(a) < off(b) for 0 <= a < b: every line has at least one byte (induction on b)."""
+    qualname, props = 'byte_offsets_monotone', ('C11', 'C13', 'C06')
+
+    def obligations(self, e):
+        off, blen = z3.Function('offL', I_, I_), z3.Function('blenL', I_, I_)
+        j, a, n = z3.Ints('jL aL nL')
+        hy = [off(0) == 0, z3.ForAll([j], z3.Implies(j >= 0, z3.And(blen(j) > 0, off(j + 1) == off(j) + blen(j))), patterns=[off(j + 1)])]
+        P = lambda b: z3.ForAll([a], z3.Implies(z3.And(0 <= a, a < b), off(a) < off(b)))
+        return induction('strictly-monotone', P, n, hy)
+
+
+class BytesLine:
+    def __init__(self, L, k):
+        self.L, self.k = L, k
+
+    def sym_len(self, I):
+        return self.L.blen(self.k)
+
+    def sym_method(self, I, name, a, kw):
+        if name == 'decode':
+            return TextLine(self.L, self.k)
+        if name == 'startswith':
+            return self.L.comment(self.k)
+        raise Unsupported(f'bytes.{name}')
+
+
+class TextLine(BytesLine):
+    def sym_len(self, I):
+        return self.L.clen(self.k)
+
+    def sym_method(self, I, name, a, kw):
+        if name == 'startswith' and a == ['#']:
+            return self.L.comment(self.k)
+        if name in ('rstrip', 'strip'):
+            return self
+        if name == 'encode':
+            return BytesLine(self.L, self.k)
+        raise Unsupported(f'str.{name}')
+
+
+class TypeStr:
+    def __init__(self, L, k):
+        self.L, self.k = L, k
+
+    def sym_method(self, I, name, a, kw):
+        if name == 'lower':
+            return self
+        raise Unsupported(f'type.{name}')
+
+    def sym_eq(self, I, other):
+        if other == 'gene':
+            return self.L.gene(self.k)
+        raise Unsupported('feature type compared with ' + repr(other))
+
+
+class GhostSet:
+    def __init__(self, log, owner):
+        self.log, self.owner = log, owner
+
+    def sym_method(self, I, name, a, kw):
+        if name == 'add':
+            self.log.append((self.owner, a[0]))
+            return None
+        raise Unsupported(f'set.{name}')
+
+
+@register
+class GtfIteratePointer(Contract):
+    """Every yielded gene pointer is the byte range of one gene line; every yielded transcript pointer is the byte range of a maximal
+    run of non-gene records with one transcript id (comment lines inside a run are covered); no pointer that was started is dropped;
+    a gene pointer collects the transcript id of every record up to the next gene line."""
+    path, qualname, props = GP, 'iterate_pointer', ('C11',)
+    assumptions = ('assumed: iterating a binary file yields its lines; len(bytes) is the byte length, len(str) the character count '
+                   '(<= byte length in UTF-8); GtfIO.line_to_seq_feature gives type, gene_id and transcript_id of a decoded line',)
+
+    def setup(self, I):
+        e = I.e
+        L = LinesModel(e)
+        for a in L.axioms:
+            e.assume(a)
+        st = types.SimpleNamespace(L=L, yielded=[], adds=[], k=None)
+        st.handle = SymObj('HandleStub')
+        st.args = [st.handle]
+        st.kwargs = dict(source='GENCODE')
+        self._cur = st
+        return st
+
+    @property
+    def models(self):
+        c = self
+
+        def inst(reg):
+            reg.protocol_('HandleStub', '__iter__', lambda I, o: FnView(c._cur.L.N, lambda i: BytesLine(c._cur.L, i if is_z3(i) else z3.IntVal(i)), tag='lines'))
+
+            def to_feature(I, a, kw):
+                L = c._cur.L
+                ln = a[0]
+                if not isinstance(ln, TextLine):
+                    I.raise_('TypeError', 'line_to_seq_feature needs str')
+                k = ln.k
+                return SymObj('GTFSeqFeature', type=TypeStr(L, k), source=None, chrom='chr1', location=None, id='<unknown id>', qualifiers={},
+                              attributes={'gene_id': Key(L.gid(k)), 'transcript_id': Key(L.tid(k))}, frame=None)
+            reg.func_('moPepGen/gtf/GtfIO.py', 'line_to_seq_feature', to_feature)
+            reg.on_yield = c.on_yield
+            reg.ctor_('set', lambda I, a, kw: GhostSet(c._cur.adds, 'new'))
+        return (inst,)
+
+    # ---- loop state
+    def mk_ptr(self, cls, key, start, end):
+        return SymObj(cls, handle=self._cur.handle, key=key, start=start, end=end, source='GENCODE',
+                      transcripts=GhostSet(self._cur.adds, 'gene-pointer'), is_protein_coding=None)
+
+    def havoc(self, I, env, k):
+        st = self._cur
+        e = I.e
+        st.ga, st.ta, st.tb = e.int('g_line'), e.int('t_first'), e.int('t_last')
+        if e.branch(e.bool('has_gene_pointer'), 'a gene pointer is open'):
+            env['cur_gene_pointer'] = self.mk_ptr('GenePointer', Key(e.int('gp_key')), e.int('gp_start'), e.int('gp_end'))
+            env['cur_gene_id'] = Key(e.int('cur_gene'))
+        else:
+            env['cur_gene_pointer'] = None
+            env['cur_gene_id'] = None
+        if e.branch(e.bool('has_tx_pointer'), 'a transcript pointer is open'):
+            key = e.int('cur_tx')
+            env['cur_tx_pointer'] = self.mk_ptr('TranscriptPointer', Key(e.int('tp_key')), e.int('tp_start'), e.int('tp_end'))
+            env['cur_tx_id'] = Key(key)
+        else:
+            env['cur_tx_pointer'] = None
+            env['cur_tx_id'] = None
+
+    def run(self, a, b, key):
+        L = self._cur.L
+        j = z3.Int('j_run')
+        return z3.And(0 <= a, a <= b, z3.Not(L.comment(a)), z3.Not(L.comment(b)),
+                      z3.ForAll([j], z3.Implies(z3.And(a <= j, j <= b),
+                                                z3.Or(L.comment(j), z3.And(z3.Not(L.gene(j)), L.tid(j) == key)))))
+
+    def inv(self, I, env, k):
+        st = self._cur
+        L = st.L
+        items = [('line_end=byte-offset-of-line-k', env['line_end'] == L.off(k))]
+        gp, tp, tid = env['cur_gene_pointer'], env['cur_tx_pointer'], env['cur_tx_id']
+        items.append(('open-transcript-pointer-iff-current-transcript-id', (tp is None) == (tid is None)))
+        if tp is not None and tid is not None:
+            f = tp.fields
+            j = z3.Int('j_after')
+            items += [('transcript-pointer-non-empty', f['start'] < f['end']),
+                      ('transcript-pointer-has-the-current-id', f['key'].code == tid.code),
+                      ('transcript-pointer=byte-range-of-the-current-run',
+                       z3.And(st.tb < k, f['start'] == L.off(st.ta), f['end'] == L.off(st.tb + 1), self.run(st.ta, st.tb, tid.code))),
+                      ('only-comments-after-the-run-so-far', z3.ForAll([j], z3.Implies(z3.And(st.tb < j, j < k), L.comment(j))))]
+        if gp is not None:
+            f = gp.fields
+            items += [('gene-pointer-non-empty', f['start'] < f['end']),
+                      ('gene-pointer=byte-range-of-its-gene-line',
+                       z3.And(0 <= st.ga, st.ga < k, L.gene(st.ga), z3.Not(L.comment(st.ga)), f['start'] == L.off(st.ga),
+                              f['end'] == L.off(st.ga + 1), f['key'].code == L.gid(st.ga)))]
+        return items
+
+    def on_head(self, I, env, k):
+        st = self._cur
+        st.k = k
+        st.pre = dict(gp=env['cur_gene_pointer'], tp=env['cur_tx_pointer'], ny=len(st.yielded), na=len(st.adds),
+                      tp_end=env['cur_tx_pointer'].fields['end'] if env['cur_tx_pointer'] is not None else None)
+
+    def on_yield(self, I, frame, p):
+        st = self._cur
+        L, k, e = st.L, st.k, I.e
+        st.yielded.append(p)
+        if k is None:
+            k = z3.IntVal(0)
+        f = p.fields
+        if p.cls == 'GenePointer':
+            e.prove('C11/gtf-index/yield/gene-pointer=byte-range-of-one-gene-line',
+                    z3.And(0 <= st.ga, st.ga < L.N, L.gene(st.ga), z3.Not(L.comment(st.ga)), f['start'] == L.off(st.ga),
+                           f['end'] == L.off(st.ga + 1), f['key'].code == L.gid(st.ga)))
+        else:
+            key = f['key'].code
+            j = z3.Int('j_y')
+            e.prove('C11/gtf-index/yield/transcript-pointer=byte-range-of-a-run-of-one-transcript',
+                    z3.And(st.tb < L.N, f['start'] == L.off(st.ta), f['end'] == L.off(st.tb + 1), self.run(st.ta, st.tb, key)))
+            e.prove('C11/gtf-index/yield/run-is-maximal-to-the-right',
+                    z3.And(z3.ForAll([j], z3.Implies(z3.And(st.tb < j, j < k), L.comment(j))),
+                           z3.Or(k >= L.N, z3.And(z3.Not(L.comment(k)), z3.Or(L.gene(k), L.tid(k) != key)))))
+
+    def step(self, I, env, k):
+        st = self._cur
+        L = st.L
+        gp, tp = env['cur_gene_pointer'], env['cur_tx_pointer']
+        new_y = st.yielded[st.pre['ny']:]
+        items = []
+        # a pointer that was open at the loop head and is no longer the current one must have been yielded
+        if st.pre['tp'] is not None and tp is not st.pre['tp']:
+            items.append(('replaced-transcript-pointer-was-yielded', any(y is st.pre['tp'] for y in new_y)))
+        if st.pre['gp'] is not None and gp is not st.pre['gp']:
+            items.append(('replaced-gene-pointer-was-yielded', any(y is st.pre['gp'] for y in new_y)))
+        items.append(('only-closed-pointers-are-yielded', all(y is st.pre['tp'] or y is st.pre['gp'] for y in new_y)))
+        # ghost updates for the invariant at k+1
+        if gp is not None and gp is not st.pre['gp']:
+            st.ga = k
+            items.append(('gene-pointer-opened-only-by-a-gene-line', z3.And(L.gene(k), z3.Not(L.comment(k)))))
+        if tp is not None and tp is not st.pre['tp']:
+            st.ta = st.tb = k
+            items.append(('transcript-pointer-opened-by-a-record-of-another-transcript',
+                          z3.And(z3.Not(L.gene(k)), z3.Not(L.comment(k)),
+                                 (st.pre['tp'] is None) or (st.pre['tp'].fields['key'].code != L.tid(k)))))
+        elif tp is not None and tp.fields['end'] is not st.pre['tp_end']:
+            st.tb = k
+        # every record after a gene line registers its transcript with that gene
+        adds = st.adds[st.pre['na']:]
+        if gp is not None and gp is st.pre['gp']:
+            want = z3.And(z3.Not(L.comment(k)), z3.Not(L.gene(k)))
+            got = [a for a in adds if a[0] == 'gene-pointer']
+            items.append(('record-registers-its-transcript-with-the-open-gene',
+                          z3.If(want, len(got) == 1 and isinstance(got[0][1], Key) and got[0][1].code == L.tid(k) if got else False,
+                                len(got) == 0)))
+        return items
+
+    @property
+    def loops(self):
+        return {0: LoopSpec(inv=self.inv, havoc=self.havoc, on_head=self.on_head, step=self.step)}
+
+    def post_return(self, I, st, ret):
+        # at the end of the file the pointers still open are yielded (st.pre is the state at the loop exit)
+        pre = getattr(st, 'pre', None)
+        if pre is None:
+            I.e.prove('C11/gtf-index/exit/loop-was-cut', False)
+            return
+        tail = st.yielded[pre['ny']:]
+        I.e.prove('C11/gtf-index/exit/open-transcript-pointer-is-yielded', pre['tp'] is None or any(y is pre['tp'] for y in tail))
+        I.e.prove('C11/gtf-index/exit/open-gene-pointer-is-yielded', pre['gp'] is None or any(y is pre['gp'] for y in tail))
+        I.e.prove('C11/gtf-index/exit/nothing-else-is-yielded', all(y is pre['tp'] or y is pre['gp'] for y in tail))
+
+
+# ----------------------------------------------------------------------------
 # Native side (replay + CPython cross-check of the spec functions)
 # ----------------------------------------------------------------------------
 from pyvc.native import NativeCheck
